@@ -121,6 +121,9 @@ type calClientCase struct {
 	Nested calPair  `json:"nested"`
 	Prop   calPair  `json:"prop"`
 	Expand *calPair `json:"expand,omitempty"`
+	// Method "" = QueryCalendar; "multiget" = MultiGetCalendar (no filter:
+	// calendar-data/expand is its only date-time position).
+	Method string `json:"method,omitempty"`
 }
 
 func (p calPair) times() (s, e time.Time, err error) {
@@ -182,20 +185,28 @@ func execCalClient(c *fw.Ctx, cs calClientCase) {
 		if qerr != nil {
 			return
 		}
-		_, qerr = cl.QueryCalendar(context.Background(), "/cal/", &q)
+		if cs.Method == "multiget" {
+			_, qerr = cl.MultiGetCalendar(context.Background(), "/cal/", &caldav.CalendarMultiGet{Paths: []string{"/cal/a.ics"}, CompRequest: q.CompRequest})
+		} else {
+			_, qerr = cl.QueryCalendar(context.Background(), "/cal/", &q)
+		}
 	})
+	call, rootName := "QueryCalendar", "calendar-query"
+	if cs.Method == "multiget" {
+		call, rootName = "MultiGetCalendar", "calendar-multiget"
+	}
 	if panicked {
-		reportPanic(c, "caldav-datetime", "Client.QueryCalendar", pv, stack, cs)
+		reportPanic(c, "caldav-datetime", "Client."+call, pv, stack, cs)
 		return
 	}
 	ex := capt.Last()
 	if ex == nil || ex.Method != "REPORT" {
-		c.Inconclusive(fmt.Sprintf("C16: QueryCalendar sent no REPORT request (err=%v)", qerr))
+		c.Inconclusive(fmt.Sprintf("C16: %s sent no REPORT request (err=%v)", call, qerr))
 		return
 	}
 	root, perr := xmltree.Parse(ex.Body)
-	if perr != nil || !root.Is(nsCal, "calendar-query") {
-		c.Inconclusive(fmt.Sprintf("C16: captured REPORT body is not a calendar-query document: %v", perr))
+	if perr != nil || !root.Is(nsCal, rootName) {
+		c.Inconclusive(fmt.Sprintf("C16: captured REPORT body is not a %s document: %v", rootName, perr))
 		return
 	}
 	var topEl, nestedEl, propEl, expandEl *xmltree.Node
@@ -223,8 +234,15 @@ func execCalClient(c *fw.Ctx, cs calClientCase) {
 		el   *xmltree.Node // element carrying start/end
 	}
 	positions := []pos{{"comp-filter/time-range", cs.Top, trOf(topEl)}, {"comp-filter/comp-filter/time-range", cs.Nested, trOf(nestedEl)}, {"prop-filter/time-range", cs.Prop, trOf(propEl)}}
+	if cs.Method == "multiget" {
+		positions = nil
+	}
 	if cs.Expand != nil {
-		positions = append(positions, pos{"calendar-data/expand", *cs.Expand, expandEl})
+		name := "calendar-data/expand"
+		if cs.Method == "multiget" {
+			name = "multiget calendar-data/expand"
+		}
+		positions = append(positions, pos{name, *cs.Expand, expandEl})
 	}
 	sampledHere := false
 	for _, p := range positions {
@@ -300,6 +318,12 @@ type calServerCase struct {
 	Nested textPair `json:"nested"`
 	Prop   textPair `json:"prop"`
 	Lex    int64    `json:"lex,omitempty"` // 0 = plain rendering, else seed of the lexical variation
+	// Expand: start / end of calendar-data/expand in the prop element (RFC
+	// 4791 section 9.6.5), observed at the CalendarCompRequest the backend
+	// receives. Report "" = calendar-query; "multiget" = calendar-multiget of
+	// one href (Top / Nested / Prop are not written: it has no filter).
+	Expand *textPair `json:"expand,omitempty"`
+	Report string    `json:"report,omitempty"`
 }
 
 func timeRangeEl(p textPair) *xmltree.Node {
@@ -320,18 +344,33 @@ func (cs calServerCase) doc() *xmltree.Node {
 	prop := xmltree.El(nsCal, "prop-filter").With("name", "DTSTART").Add(timeRangeEl(cs.Prop))
 	nested := xmltree.El(nsCal, "comp-filter").With("name", "VEVENT").Add(timeRangeEl(cs.Nested), prop)
 	top := xmltree.El(nsCal, "comp-filter").With("name", "VCALENDAR").Add(timeRangeEl(cs.Top), nested)
-	return xmltree.El(nsCal, "calendar-query",
-		xmltree.El(nsDAV, "prop", xmltree.El(nsDAV, "getetag")),
-		xmltree.El(nsCal, "filter", top))
+	propEl := xmltree.El(nsDAV, "prop", xmltree.El(nsDAV, "getetag"))
+	if cs.Expand != nil {
+		ex := xmltree.El(nsCal, "expand")
+		if cs.Expand.Start != nil {
+			ex.With("start", *cs.Expand.Start)
+		}
+		if cs.Expand.End != nil {
+			ex.With("end", *cs.Expand.End)
+		}
+		propEl.Add(xmltree.El(nsCal, "calendar-data", ex))
+	}
+	if cs.Report == "multiget" {
+		return xmltree.El(nsCal, "calendar-multiget", propEl, xmltree.El(nsDAV, "href", xmltree.Txt("/p/cal/c1/o.ics")))
+	}
+	return xmltree.El(nsCal, "calendar-query", propEl, xmltree.El(nsCal, "filter", top))
 }
 
 type serverObs struct {
 	status int
 	called int
 	query  *caldav.CalendarQuery
+	// comp is the CalendarCompRequest the backend received (of the query, or
+	// of GetCalendarObject for a multiget)
+	comp *caldav.CalendarCompRequest
 }
 
-func sendCalQuery(body []byte) (obs serverObs, err error) {
+func sendCalQuery(body []byte, multiget bool) (obs serverObs, err error) {
 	be := &doubles.CalBackend{Principal: "/p/", HomeSet: "/p/cal/", QueryResult: []caldav.CalendarObject{}}
 	cl := &doubles.InProc{Handler: &caldav.Handler{Backend: be}}
 	req, err := http.NewRequest("REPORT", "http://dav.test/p/cal/c1/", bytes.NewReader(body))
@@ -347,10 +386,17 @@ func sendCalQuery(body []byte) (obs serverObs, err error) {
 	resp.Body.Close()
 	obs.status = resp.StatusCode
 	for _, call := range be.Calls() {
-		if call.Op == "QueryCalendarObjects" {
+		if call.Op == "QueryCalendarObjects" && !multiget {
 			obs.called++
-			if q, ok := call.Arg.(*caldav.CalendarQuery); ok {
+			if q, ok := call.Arg.(*caldav.CalendarQuery); ok && q != nil {
 				obs.query = q
+				obs.comp = &q.CompRequest
+			}
+		}
+		if call.Op == "GetCalendarObject" && multiget {
+			obs.called++
+			if cr, ok := call.Arg.(*caldav.CalendarCompRequest); ok {
+				obs.comp = cr
 			}
 		}
 	}
@@ -366,10 +412,29 @@ func execCalServer(c *fw.Ctx, cs calServerCase) {
 		want      int64
 	}
 	var bounds []bound
-	for _, p := range []struct {
+	multiget := cs.Report == "multiget"
+	type namedPair struct {
 		name string
 		pair textPair
-	}{{"top", cs.Top}, {"nested", cs.Nested}, {"prop", cs.Prop}} {
+	}
+	pairs := []namedPair{{"top", cs.Top}, {"nested", cs.Nested}, {"prop", cs.Prop}}
+	if multiget {
+		pairs = nil
+	}
+	if cs.Expand != nil {
+		if cs.Expand.Start == nil || cs.Expand.End == nil {
+			// expand wants both attributes (RFC 4791 section 9.6.5); what a
+			// server does with half an expand is not a matter of the codec
+			c.Observe("caldav_server_outcome", "expand with a missing attribute (not decided)", 1)
+			return
+		}
+		name := "expand"
+		if multiget {
+			name = "multiget-expand"
+		}
+		pairs = append(pairs, namedPair{name, *cs.Expand})
+	}
+	for _, p := range pairs {
 		for _, b := range []struct {
 			attr string
 			t    *string
@@ -408,9 +473,13 @@ func execCalServer(c *fw.Ctx, cs calServerCase) {
 	var err error
 	c.Journal(witness{Prim: "caldav-datetime", Case: cs})
 	defer c.JournalDone()
-	panicked, pv, stack := fw.Guard(func() { obs, err = sendCalQuery(body) })
+	reportName := "calendar-query"
+	if multiget {
+		reportName = "calendar-multiget"
+	}
+	panicked, pv, stack := fw.Guard(func() { obs, err = sendCalQuery(body, multiget) })
 	if panicked {
-		reportPanic(c, "caldav-datetime", "Handler REPORT calendar-query", pv, stack, cs)
+		reportPanic(c, "caldav-datetime", "Handler REPORT "+reportName, pv, stack, cs)
 		return
 	}
 	if err != nil {
@@ -425,15 +494,18 @@ func execCalServer(c *fw.Ctx, cs calServerCase) {
 	case dontCare:
 		verdictKey = "dont-care"
 	}
-	c.Observe("caldav_server_outcome", fmt.Sprintf("%s|status=%d|backend_called=%d", verdictKey, obs.status, obs.called), 1)
+	c.Observe("caldav_server_outcome", fmt.Sprintf("%s|%s|status=%d|backend_called=%d", reportName, verdictKey, obs.status, obs.called), 1)
 
 	if mustReject != "" {
 		if obs.called > 0 {
 			if obs.query != nil {
 				got["received"] = describeQuery(obs.query)
 			}
+			if obs.comp != nil && obs.comp.Expand != nil {
+				got["received_expand"] = obs.comp.Expand.Start.String() + " .. " + obs.comp.Expand.End.String()
+			}
 			c.Report("wire→server|caldav-datetime|accepts-"+mustReject,
-				fmt.Sprintf("calendar-query with the date-time %q (%s) is handed to the backend (status %d)", badText, mustReject, obs.status), witness{"caldav-datetime", cs, got})
+				fmt.Sprintf("%s with the date-time %q (%s) is handed to the backend (status %d)", reportName, badText, mustReject, obs.status), witness{"caldav-datetime", cs, got})
 		}
 		return
 	}
@@ -446,26 +518,33 @@ func execCalServer(c *fw.Ctx, cs calServerCase) {
 			// Decide on the plain rendering: the lexical variation is not this
 			// property's subject.
 			var plain serverObs
-			p2, _, _ := fw.Guard(func() { plain, err = sendCalQuery(xmltree.Render(tree, nil)) })
+			p2, _, _ := fw.Guard(func() { plain, err = sendCalQuery(xmltree.Render(tree, nil), multiget) })
 			if !p2 && err == nil && plain.called == 1 && plain.status/100 == 2 {
 				c.Observe("caldav_server_outcome", "valid document refused only in a lexical variant (not decided here)", 1)
 				return
 			}
 		}
 		c.Report("wire→server|caldav-datetime|rejects-valid",
-			fmt.Sprintf("calendar-query with valid UTC date-times is answered %d and reaches the backend %d times", obs.status, obs.called), witness{"caldav-datetime", cs, got})
+			fmt.Sprintf("%s with valid UTC date-times is answered %d and reaches the backend %d times", reportName, obs.status, obs.called), witness{"caldav-datetime", cs, got})
 		return
 	}
-	q := obs.query
-	got["received"] = describeQuery(q)
 	recv := map[string][2]*time.Time{}
-	recv["top"] = [2]*time.Time{&q.CompFilter.Start, &q.CompFilter.End}
-	if len(q.CompFilter.Comps) > 0 {
-		n := &q.CompFilter.Comps[0]
-		recv["nested"] = [2]*time.Time{&n.Start, &n.End}
-		if len(n.Props) > 0 {
-			recv["prop"] = [2]*time.Time{&n.Props[0].Start, &n.Props[0].End}
+	if q := obs.query; q != nil {
+		got["received"] = describeQuery(q)
+		recv["top"] = [2]*time.Time{&q.CompFilter.Start, &q.CompFilter.End}
+		if len(q.CompFilter.Comps) > 0 {
+			n := &q.CompFilter.Comps[0]
+			recv["nested"] = [2]*time.Time{&n.Start, &n.End}
+			if len(n.Props) > 0 {
+				recv["prop"] = [2]*time.Time{&n.Props[0].Start, &n.Props[0].End}
+			}
 		}
+	}
+	if obs.comp != nil && obs.comp.Expand != nil {
+		e := obs.comp.Expand
+		got["received_expand"] = e.Start.String() + " .. " + e.End.String()
+		recv["expand"] = [2]*time.Time{&e.Start, &e.End}
+		recv["multiget-expand"] = recv["expand"]
 	}
 	sampledHere := false
 	for _, b := range bounds {
@@ -592,6 +671,7 @@ func runCalDT(c *fw.Ctx) {
 				}
 				other := instant{Unix: 1136214245, Zone: zoneSpec{Kind: "utc"}}
 				execCalClient(c, calClientCase{Side: "client", Top: calPair{&in, &other}, Nested: calPair{&other, &in}, Prop: calPair{&in, &in}, Expand: &calPair{&in, &other}})
+				execCalClient(c, calClientCase{Side: "client", Method: "multiget", Expand: &calPair{&other, &in}})
 			}
 		}
 		// open ranges
@@ -609,6 +689,9 @@ func runCalDT(c *fw.Ctx) {
 		if r.Intn(2) == 0 {
 			p := genCalClientPair(r, false)
 			cs.Expand = &p
+			if r.Intn(3) == 0 {
+				cs = calClientCase{Side: "client", Method: "multiget", Expand: &p}
+			}
 		}
 		execCalClient(c, cs)
 	}
@@ -623,9 +706,16 @@ func runCalDT(c *fw.Ctx) {
 				c.Inconclusive(fmt.Sprintf("C16 harness: CalDAV near-miss %q labelled %q but classified %q", nm.text, nm.class, k))
 				continue
 			}
-			for pos := 0; pos < 6; pos++ {
+			for pos := 0; pos < 10; pos++ {
 				cs := calServerCase{Side: "server", Top: valid(), Nested: valid(), Prop: valid()}
-				tp := []*textPair{&cs.Top, &cs.Nested, &cs.Prop}[pos/2]
+				if pos >= 6 {
+					e := valid()
+					cs.Expand = &e
+				}
+				if pos >= 8 {
+					cs = calServerCase{Side: "server", Report: "multiget", Expand: cs.Expand}
+				}
+				tp := []*textPair{&cs.Top, &cs.Nested, &cs.Prop, cs.Expand, cs.Expand}[pos/2]
 				if pos%2 == 0 {
 					tp.Start = ptr(nm.text)
 				} else {
@@ -637,6 +727,8 @@ func runCalDT(c *fw.Ctx) {
 		for _, u := range boundaryInstants {
 			t := ptr(fmtCalDT(u))
 			execCalServer(c, calServerCase{Side: "server", Top: textPair{t, t}, Nested: textPair{t, nil}, Prop: textPair{nil, t}})
+			execCalServer(c, calServerCase{Side: "server", Top: valid(), Nested: valid(), Prop: valid(), Expand: &textPair{t, t}})
+			execCalServer(c, calServerCase{Side: "server", Report: "multiget", Expand: &textPair{t, t}})
 		}
 	}
 	n = c.Pick(25000, 250000)
@@ -650,9 +742,22 @@ func runCalDT(c *fw.Ctx) {
 		if r.Intn(2) == 0 {
 			cs.Lex = 1 + r.Int63n(1<<40)
 		}
+		// calendar-data/expand in one case out of two, half of them in a
+		// calendar-multiget
+		targets := []*textPair{&cs.Top, &cs.Nested, &cs.Prop}
+		switch r.Intn(4) {
+		case 0:
+			e := textPair{Start: ptr(fmtCalDT(genInstant(r).Unix)), End: ptr(fmtCalDT(genInstant(r).Unix))}
+			cs.Expand = &e
+			targets = append(targets, cs.Expand, cs.Expand)
+		case 1:
+			e := textPair{Start: ptr(fmtCalDT(genInstant(r).Unix)), End: ptr(fmtCalDT(genInstant(r).Unix))}
+			cs = calServerCase{Side: "server", Report: "multiget", Lex: cs.Lex, Expand: &e}
+			targets = []*textPair{cs.Expand}
+		}
 		if r.Intn(5) < 2 {
 			// corrupt one bound
-			tp := []*textPair{&cs.Top, &cs.Nested, &cs.Prop}[r.Intn(3)]
+			tp := targets[r.Intn(len(targets))]
 			var text string
 			switch r.Intn(4) {
 			case 0:
